@@ -6,14 +6,14 @@ out=/verif/seeded/$id; mkdir -p $out
 cd $wt || exit 1
 demo=$(git status --porcelain | grep '^??' | awk '{print $2}' | grep '_test.go$' | head -1)
 pkg=./$(dirname $demo)
-git diff -- . ':(exclude)verif_contracts.go' ':(exclude)log/verif_contracts.go' > $out/patch.diff
+git diff -- . ':(exclude)verif_contracts*.go' ':(exclude)log/verif_contracts*.go' > $out/patch.diff
 cp $demo $out/$(basename $demo)
 cp SEEDED.md $out/SEEDED.md 2>/dev/null
 echo "demo=$demo pkg=$pkg" > $out/confirm.log
 # 1. demo with change must fail
 go test -vet=off -count=1 -timeout 10m -run 'TestSeededDemo' $pkg >> $out/confirm.log 2>&1; with=$?
 # 2. demo without change must pass
-git stash -q -- $(git diff --name-only -- . ':(exclude)verif_contracts.go' ':(exclude)log/verif_contracts.go')
+git stash -q -- $(git diff --name-only -- . ':(exclude)verif_contracts*.go' ':(exclude)log/verif_contracts*.go')
 go test -vet=off -count=1 -timeout 10m -run 'TestSeededDemo' $pkg >> $out/confirm.log 2>&1; without=$?
 git stash pop -q
 # 3. full suite with change (demo excluded) must pass
